@@ -36,7 +36,7 @@ ASSUMPTIONS = [
 FLOORS = {
     'quick': {'cases': 12000, 'memo_mattered': 2500, 'cfg:memo_off': 8000, 'cfg:plm_0.01': 10000, 'cfg:trace': 10000,
               'cfg:trace_color': 10000, 'cfg:parseinfo': 10000, 'cfg:noprune': 10000, 'lrec_cases': 1000,
-              'trace_chars': 100000, 'trace_escapes': 1000, 'accepted': 4000, 'failed': 3000, 'similar_rule_names': 500, 'nested_family': 150, 'nested_family_with_nomemo_or_nostak': 80, 'failing_semantics_mattered': 2000, 'cfg_failing:memo_off': 8000},
+              'trace_chars': 100000, 'trace_escapes': 1000, 'accepted': 4000, 'failed': 3000, 'similar_rule_names': 500, 'nested_family': 150, 'error_class_family': 100, 'nested_family_with_nomemo_or_nostak': 80, 'failing_semantics_mattered': 2000, 'cfg_failing:memo_off': 8000},
     'thorough': {'cases': 250000, 'memo_mattered': 50000, 'lrec_cases': 20000},
 }
 PEAK_COUNTERS = ('max_memo_len_over_capacity',)
@@ -52,6 +52,7 @@ class Sink:
     def __init__(self):
         self.chars = 0
         self.escapes = 0
+        self.stack = []
 
     def write(self, s):
         self.chars += len(s)
@@ -82,10 +83,25 @@ def retry_grammar(rng):
             extra = L.Choice((L.Seq((C(x), L.Cut(), L.Tok('b'))), L.Seq((C(x), L.Tok('c')))))
         elif k < 0.8:
             extra = L.Seq((L.NLA(L.Seq((C(x), L.Tok('c')))), C(x), L.Opt(C(x))))
-        elif k < 0.92:
+        elif k < 0.97:
             # between two uses of x, an alternative that fails where x failed but with ANOTHER class of error: which
             # failure is reported must not depend on whether the last one was replayed from the memo table
-            extra = L.Choice((L.Seq((C(x), L.Tok('b'))), L.Group(other_failure(rng, g.rule(x).body)), L.Seq((C(x), L.Tok('c')))))
+            leaves = [L.Tok('b'), L.Pat(r'[0-9]+'), L.Meta('int'), L.EOF(), L.NLA(L.Dot()), L.Fail(), L.Meta('bool'), L.LA(L.Tok('b'))]
+            l1, l2 = rng.sample(leaves, 2)
+            prefix = g.rule(x).body
+            for r in g.rules:
+                if r.name == x:
+                    r.body = G.normalise(L.Seq((L.Group(prefix), l1)))
+            mid = G.normalise(L.Seq((L.Group(prefix), l2)))
+            tails = [L.Tok('b'), L.Tok('c')] if rng.random() < 0.7 else [L.EOF(), L.Tok('c')]
+            # (a rule of its own: failures are registered as "furthest" when a rule fails)
+            g.rules.append(L.Rule('w9', mid))
+            extra = L.Choice((L.Seq((C(x), tails[0])), C('w9'), L.Seq((C(x), tails[1]))))
+            # inputs on which the prefix matches and what follows it does not
+            g.extra_texts = []
+            for _ in range(5):
+                d = G.derive(rng, g, prefix)
+                g.extra_texts.append(d + rng.choice(['', ' ', ' c', '?', ' ?', 'c', ' a', '\n', ' 1x']))
         else:
             extra = None
         if extra is not None:
@@ -100,7 +116,7 @@ def retry_grammar(rng):
     return g
 
 
-def other_failure(rng, body):
+def _unused_other_failure(rng, body):
     """a copy of the expression with one token/pattern leaf replaced by a leaf that fails with another exception class"""
     leaves = [x for x in L.walk(body) if isinstance(x, (L.Tok, L.Pat))]
     if not leaves:
@@ -202,6 +218,7 @@ def run(model, g, text, settings, probe=False, failing=None):
             out = ('ok', canon(model.parse(text, heart=StepHeart(step_budget(g, text)), **kw)))
         except FailedParse as e:
             out = ('fail', type(e).__name__)
+            sink.stack = list(getattr(e, 'stack', []) or [])
         except RecursionError:
             out = ('EXC', 'RecursionError')
         except Exception as e:  # noqa: BLE001
@@ -233,6 +250,11 @@ def check_case(acc, g, model, text, lrec, origin):
         if out != expect:
             w = {'grammar': L.to_json(g), 'grammar_text': L.grammar_text(g), 'text': text, 'config': name,
                  'settings': settings, 'baseline': base, 'variant': out, 'origin': origin}
+            if relation(base, out) == 'error-class' and reexecution_reorders_failures(model, g, text, settings):
+                acc.violation(f'outcome/{name}/error-class/trigger:successful-rule-reexecuted-inside-failing-stack',
+                              f'configuration {name} {settings} changed the CLASS of the reported failure: grammar '
+                              f'{L.grammar_text(g).strip()!r} input {text!r} DEFAULT={base} VARIANT={out}', w)
+                continue
             acc.violation(f'outcome/{name}/{relation(base, out)}',
                           f'configuration {name} {settings} changed the outcome of a parse: grammar {L.grammar_text(g).strip()!r} '
                           f'input {text!r} DEFAULT={base} VARIANT={out}', w)
@@ -268,6 +290,25 @@ def check_case(acc, g, model, text, lrec, origin):
                           f'{L.grammar_text(g).strip()!r} input {text!r} DEFAULT={base_f} VARIANT={out}',
                           {'grammar': L.to_json(g), 'grammar_text': L.grammar_text(g), 'text': text, 'config': name,
                            'settings': settings, 'baseline': base_f, 'variant': out, 'origin': origin, 'failing_salt': salt})
+
+
+def reexecution_reorders_failures(model, g, text, settings):
+    """mechanism predicate of the recorded finding: the failure reported is the LAST one registered at the furthest
+    position; a rule that succeeds is executed again (memoization off, entry evicted or pruned) or not (memo hit), and only
+    when executed does it register the failures inside it again.  Observable side: a rule on the reported failure's own
+    rule stack (public FailedParse.stack), other than the failing rule itself, completed a different number of times in
+    the two runs (semantics-probe event logs)."""
+    _b, ev_b, sk_b = run(model, g, text, {}, probe=True)
+    _o, ev_o, sk_o = run(model, g, text, settings, probe=True)
+    if ev_b is None or ev_o is None:
+        return False
+    cb, co = collections.Counter(), collections.Counter()
+    for (n, _a, _p), k in ev_b.items():
+        cb[n] += k
+    for (n, _a, _p), k in ev_o.items():
+        co[n] += k
+    names = set(sk_b.stack[:-1]) | set(sk_o.stack[:-1])
+    return any(cb[n] != co[n] for n in names)
 
 
 def relation(a, b):
@@ -314,7 +355,9 @@ def run_shard(desc, acc):
                 # names that differ only in case, a suffix or a prefix: memo keys must keep them apart
                 g = G.rename_rules(g, G.SIMILAR_NAMES)
                 acc.count('similar_rule_names')
-            texts = inputs_for(rng, g, 5)
+            texts = inputs_for(rng, g, 5) + getattr(g, 'extra_texts', [])
+            if getattr(g, 'extra_texts', None):
+                acc.count('error_class_family')
         try:
             model = L.to_model(g, name='T')
         except Exception as e:  # noqa: BLE001
